@@ -88,6 +88,18 @@ def fam_pipelines(seed, big):
                 sc["config_after"] = m
                 out.append(sc)
                 i += 1
+    # far more input data than all the pipes of the chain hold together (every stage adds to each line, so the volume
+    # grows along the chain): the input keeps being delivered in step with the output being drained
+    for n in (2, 3):
+        for term in ("capture", "communicate"):
+            out.append(pl(i, n, "left", "data", "pipe", "capture", term, 150000, rng=rng))
+            i += 1
+            # (the same through commands that copy in 4 KiB units, like cat)
+            sc = pl(i, n, "left", "data", "pipe", "capture", term, 150000, rng=rng)
+            sc["stream"] = True
+            sc["sip"] = True
+            out.append(sc)
+            i += 1
     # pipeline | pipeline with the input (and the error sink) configured on the left one and the output on the right one;
     # and pipelines used as templates: what runs is a clone of the configured pipeline
     for n in (4, 5):
@@ -187,6 +199,18 @@ def fam_pipeline_fail(seed, big):
             sc["tags"][own] = "we300000"
             out.append(sc)
             i += 1
+    # the parent runs with standard descriptors closed (a daemon): the launch-status pipe and the connecting pipes are made
+    # on -- and moved away from -- the numbers the commands' streams are installed on
+    for closed in ([0, 1], [0], [1, 2]):
+        for n, k in ((2, 0), (2, 1), (3, 1), (3, 2)):
+            for term, stdin, stdout, stderr in (("popen", "pipe", "pipe", "inherit"), ("join", "file", "file", "inherit"),
+                                                ("stream_stdout", "file", "pipe", "inherit"), ("capture", "data", "pipe", "capture")):
+                if (0 in closed and stdin == "inherit") or (2 in closed and stderr == "inherit"):
+                    continue
+                sc = pl(i, n, "left", stdin, stdout, stderr, term, 3, fail_at=k, detached=False, rng=rng)
+                sc["closed_std"] = closed
+                out.append(sc)
+                i += 1
     # a signal handler (installed without SA_RESTART) interrupts one of the waits for the commands already started:
     # the failed attempt must still have reaped every one of them when it returns
     for n, k in ((2, 1), (3, 2), (3, 1), (4, 3)):
@@ -231,6 +255,14 @@ def fam_handles(seed, big):
             for wr in (0, 10):
                 out.append({"id": "h%d" % i, "kind": "handle", "class": "handle-extra-pipes", "handle": handle,
                             "script": list(script), "write": wr, "read": 4, "detached": False})
+                i += 1
+    # the same drops in a parent that runs with standard descriptors closed (the handle's pipe ends were created on, and
+    # moved away from, the numbers 0-2)
+    for closed in ([0], [0, 1]):
+        for handle, w in (("stream_stdout", "wo"), ("popen_out", "wo"), ("pl_stream_stdout", "wo"), ("stream_stderr", "we")):
+            for script in ([w + str(BIG), w + str(BIG), "x3"], [w + "10", "s30", "x0"]):
+                out.append({"id": "h%d" % i, "kind": "handle", "class": "handle-read-closed-std", "handle": handle,
+                            "script": script, "read": 5, "detached": False, "closed_std": closed})
                 i += 1
     for handle in ("join", "capture", "pl_join", "pl_capture", "popen_plain"):
         for script in (["x0"], ["s40", "x5"], ["wo100", "we100", "x0"], ["wo" + str(BIG), "x0"], ["k15"], ["k9"]):
